@@ -1,11 +1,11 @@
 """C02 - handshake authenticates the server, agrees one key, promotes on proof of key."""
 import io
 
-from harness import core, connlib
+from harness import core, connlib, serverlib
 
 PROP = "C02"
 LEAN_MODULES = ["MpgsModel.Props.C02"]
-MODEL_MODULES = ["MpgsModel.Model.Handshake", "MpgsModel.Model.ToyAead"]
+MODEL_MODULES = ["MpgsModel.Model.Handshake", "MpgsModel.Model.ToyAead", "MpgsModel.Model.Server"]
 NS = "Mpgs.Conn."
 THEOREMS = [
     (NS + "C02_client_key_only_if_verified", "full"),
@@ -32,7 +32,10 @@ RULE = ("three-way handshakes between real ClientServerConnection / ServerClient
         "another session of the same server; wrong / zero / other-session tokens in a challenge sealed under the right key; challenge sealed "
         "under another key; duplication and reordering of all three datagrams; truncation/extension; unauthenticated application datagrams "
         "before any key; hellos with further unauthenticated messages stacked behind them in one datagram (both directions); unanswered connect; trust-on-first-use and wrongly pinned clients; followed by application traffic both ways; "
-        "compared with the model: every recv result, event, status and the final state dumps; non-trivial = the script is not 'honest'")
+        "compared with the model: every recv result, event, status and the final state dumps; non-trivial = the script is not 'honest'; plus "
+        "honest clients against the REAL UdpServerThread loop over a network that loses nothing but duplicates datagrams, also one iteration "
+        "late (a second copy of the hello after the server hello went out): every client must end CONNECTED with the server holding the same "
+        "key and token in its connected pool")
 
 
 def post_fn(op, out):
@@ -149,6 +152,31 @@ def monitor(real, case, log, ctx):
                     {k: v.get("st") for k, v in final.items()}, {"case": case, "at": len(case) - 2})
 
 
+def agreement_monitor(case, log, ctx, settle=6):
+    """honest clients against the real server loop over a network that only duplicates and delays: a client that has been CONNECTED
+    for a few iterations is connected at the server too, under the same key and token"""
+    fin = [r for r in log if r.get("op") == "final"]
+    if not fin:
+        return
+    fin = fin[0]
+    for cl in fin["clients"]:
+        if not cl["current"] or cl["born"] is None or fin["iterations"] - cl["born"] < settle:
+            continue
+        a = "%s:%d" % tuple(cl["addr"])
+        sv = fin["server"].get(a)
+        if cl["status"] != 2:
+            ctx.failure("honest-handshake-failed", "client %s (hello sent in iteration %d of %d, nothing lost) is in status %d" %
+                        (cl["name"], cl["born"], fin["iterations"], cl["status"]), {"case": case, "at": len(case) - 2})
+            return
+        if sv is None or sv["pool"] != "conns" or sv["key"] != cl["key"] or sv["token"] != cl["token"]:
+            ctx.failure("connected-without-agreement", "client %s is CONNECTED (token %d) but the server holds %s for its address" %
+                        (cl["name"], cl["token"], "nothing" if sv is None else "a connection in pool %s, token %d, %s key" %
+                         (sv["pool"], sv["token"], "the same" if sv["key"] == cl["key"] else "a different")),
+                        {"case": case, "at": len(case) - 2})
+            return
+        ctx.count("server-loop:agreed")
+
+
 def run(ctx):
     real = connlib.Real()
     rng = ctx.rng
@@ -168,5 +196,21 @@ def run(ctx):
                          lambda c, o: "honest" not in c[0])
     for c in cases:
         monitor(real, c, logs[core.case_id(c)], ctx)
+        if ctx.failures:
+            return
+    # ---- the same handshake through the real server loop: honest clients, a network that duplicates (also one iteration late)
+    scases, souts, slogs = [], {}, {}
+    for i in range(ctx.scale(40, 600)):
+        cid = "sl%d" % i
+        lines, outs, recs, log = serverlib.gen_server_case(real, rng, cid, n_iter=rng.choice([14, 20]), n_clients=rng.choice([1, 2, 3]),
+                                                           hostile=0.0, act_p=0.0, collide=0.3, silent=0.0, leave=0.0, stop_early=0.0,
+                                                           loss=0.0, dup_next=rng.choice([0.3, 0.7]), spawn=0.5, rechal=0.0)
+        scases.append(lines)
+        souts[cid] = outs
+        slogs[cid] = log
+    ctx.correspondence("Server(loop, handshakes)", "Conn", scases, lambda case: souts[core.case_id(case)],
+                       lambda c, o: "connect:" in " ".join(o), RULE, minimise=False, post=serverlib.post)
+    for c in scases:
+        agreement_monitor(c, slogs[core.case_id(c)], ctx)
         if ctx.failures:
             return
